@@ -148,6 +148,7 @@ SHAPES = [
            'def fail(exc, msg):\n    """Doc line one\n    line two."""\n    raise exc(msg)\n    text = """never\n    reached"""\n    return text\n'),
     _shape("sub-expression", "def fail(exc, msg):\n    zero = 0\n    value = dict(\n        a=1,\n        b=1 // zero,\n    )\n    return value\n", raises="ZeroDivisionError"),
     _shape("leading-continuation-line", "\\\nLEAD = 1\n\n\ndef fail(exc, msg):\n    raise exc(msg)\n"),
+    _shape("lone-continuation-line", "FIRST = 1\n\\\nSECOND = 2\n\n\ndef fail(exc, msg):\n    raise exc(msg)\n"),
     _shape("module-level", "raise EXC(MSG)\n", module_level=True),
     _shape("no-final-newline", "def fail(exc, msg):\n    x = 1\n    raise exc(msg)"),
     _shape("lambda-generator", "fail = lambda exc, msg: (_ for _ in ()).throw(exc(msg))\n"),
